@@ -412,11 +412,12 @@ Definition is_het (gt : list Z) : bool :=
 (* an output call: alleles, phased?, PS *)
 Definition call : Type := (list Z * bool * option Z)%type.
 (* in_gt: the input alleles of a sample that has superreads ([] if missing/partial), in_ps its PS value.
-   pos = record.start (0-based).  Existing phasing is removed (tag PS): alleles sorted, '/'.
-   A record at which no sample has both a component and a phase is skipped: the old PS value stays (others = some
-   other sample is phased at this record).  Otherwise the genotype is replaced if the phase column's multiset
-   differs; the call is phased iff the position has a component and a phase and the (possibly replaced) genotype is
-   heterozygous, PS = component + 1; else PS is cleared. *)
+   pos = record.start (0-based).  _remove_existing_phasing (since /repo 9ec9805: for every target sample of EVERY
+   record, also records the writer then skips) clears PS/PQ/HP, unphases GT and sorts it when fully called - so the
+   input PS never survives (in_ps is ignored).  A record at which no sample has both a component and a phase is
+   skipped after that (others = some other sample is phased at this record).  Otherwise the genotype is replaced by
+   the sorted phase alleles if the phase column's multiset differs; the call is phased iff the position has a
+   component and a phase and the (possibly replaced) genotype is heterozygous, PS = component + 1. *)
 Definition write_call (comps : dict) (phases : list (Z * list Z)) (pos : Z) (in_gt : list Z) (in_ps : option Z)
   (others : bool) : call :=
   let base := sortZ in_gt in
@@ -426,9 +427,9 @@ Definition write_call (comps : dict) (phases : list (Z * list Z)) (pos : Z) (in_
       let gt := if changed then sortZ ph else base in
       match lookup comps pos with
       | Some c => if is_het (if changed then ph else in_gt) then (ph, true, Some (c + 1)) else (gt, false, None)
-      | None => if others then (gt, false, None) else (base, false, in_ps)
+      | None => if others then (gt, false, None) else (base, false, None)
       end
-  | None => (base, false, if others then None else in_ps)
+  | None => (base, false, None)
   end.
 (* all records of one processed sample (the only sample with superreads): (pos, in_gt, in_ps) -> (pos, call) *)
 Definition inrec : Type := (Z * list Z * option Z)%type.
